@@ -43,12 +43,14 @@ package guardiansets
 
 //@ func (gs *GuardianSets) GetCurrentGuardianSet() (s *common.GuardianSet)
 //@   props C19
+//@   replay explorer_guardiansets_race.go.tmpl
 //@   requires indexed(gs)
 //@   ensures [current] s != nil && s.Index == gs.currentGuardianSetIndex
 //@   nopanic
 
 //@ func (gs *GuardianSets) GetGuardianSet(ctx context.Context, index int) (s *common.GuardianSet, err error)
 //@   props C19
+//@   replay explorer_guardiansets_race.go.tmpl
 //@   requires indexed(gs) && 0 <= index && index <= 4294967295
 //@   ensures [set-with-that-index] err == nil ==> s != nil && s.Index == index
 //@   ensures [indexed] indexed(gs)
